@@ -348,9 +348,31 @@ func checkC11(c *core.Ctx) {
 			}
 		}
 	}
+	type bdo struct{ B, D, O int }
+	var dims []bdo
 	for B := 1; B <= maxDim; B++ {
 		for D := 1; D <= maxDim; D++ {
 			for O := 1; O <= maxDim; O++ {
+				dims = append(dims, bdo{B, D, O})
+			}
+		}
+	}
+	// wide layers and large batches (default history only): inner dimensions of
+	// the backward matrix products and the batch reduction grow beyond the small bound
+	wide := []bdo{{1, 16, 2}, {2, 17, 3}, {1, 33, 1}, {2, 4, 16}, {1, 2, 40}, {64, 2, 2}, {70, 3, 1}, {3, 64, 5}}
+	if c.Thorough() {
+		wide = append(wide, bdo{1, 128, 2}, bdo{2, 257, 2}, bdo{128, 2, 3}, bdo{5, 8, 8}, bdo{1, 9, 9}, bdo{33, 33, 2})
+	}
+	nSmall := len(dims)
+	dims = append(dims, wide...)
+	for di, dd := range dims {
+		{
+			{
+				B, D, O := dd.B, dd.D, dd.O
+				devs, lrs := devs, lrs
+				if di >= nSmall {
+					devs, lrs = []c11Devs{nil}, []lrCfg{{lr: 0.1}}
+				}
 				for _, act := range acts {
 					for _, loss := range []string{"MSE", "BCE", "CE"} {
 						for _, lr := range lrs {
@@ -364,6 +386,10 @@ func checkC11(c *core.Ctx) {
 									nontrivial := len(dev) > 0 || B > 1
 									c.Case(fmt.Sprintf("%s/i%d/%s", m, ini, dev), nontrivial, func() core.Verdict {
 										x := enum.Generic([]int{B, D}, uint64(901+ini), 0.3, 1.5, true)
+										if D > 3 {
+											// keep the pre-activations of wide layers in the well-conditioned range
+											x = ref.Map(x, func(v float64) float64 { return v * 3 / float64(D) })
+										}
 										var t *ref.T
 										if loss == "CE" {
 											t = enum.Generic([]int{B, O}, uint64(905+ini), 0.1, 0.9, false)
